@@ -77,6 +77,11 @@ package util
 //@   ensures val != nil && !old(memberU16(q.acked, val.SeqNo)) && val.SeqNo != old(q.NextSeqNo) && (uint16(val.SeqNo - old(q.NextSeqNo)) >= 128) ==> err != nil    :outside_window_rejected
 //@   ensures val != nil && !old(memberU16(q.acked, val.SeqNo)) && val.SeqNo != old(q.NextSeqNo) && (uint16(val.SeqNo - old(q.NextSeqNo)) < 128) ==> err == nil && len(q.in) == old(len(q.in)) && q.NextSeqNo == old(q.NextSeqNo) && len(q.future) == old(len(q.future)) + 1 && q.future[len(q.future)-1] == val   :future_stored
 //@   ensures val != nil && !old(memberU16(q.acked, val.SeqNo)) && val.SeqNo == old(q.NextSeqNo) ==> err == nil && len(q.in) >= old(len(q.in)) + len(old(val.Data))   :expected_packet_released
+// the list of recently acknowledged numbers (the duplicate filter): the new number is appended, and when the
+// list is full the OLDEST number is the one that is forgotten (otherwise number n would still be "recent" when
+// the 16-bit counter comes round to n again and the new packet n would be dropped as a duplicate for ever)
+//@   ensures val != nil && !old(memberU16(q.acked, val.SeqNo)) && val.SeqNo == old(q.NextSeqNo) && old(len(q.acked)) < MaxCachedChunks ==> len(q.acked) == old(len(q.acked)) + 1 && q.acked[len(q.acked)-1] == val.SeqNo && (forall i :: 0 <= i && i < old(len(q.acked)) ==> q.acked[i] == old(q.acked[i]))   :acknowledged_number_recorded
+//@   ensures val != nil && !old(memberU16(q.acked, val.SeqNo)) && val.SeqNo == old(q.NextSeqNo) && old(len(q.acked)) >= MaxCachedChunks ==> len(q.acked) == old(len(q.acked)) && q.acked[len(q.acked)-1] == val.SeqNo && (forall i :: 0 <= i && i + 1 < len(q.acked) ==> q.acked[i] == old(q.acked[i+1]))   :oldest_acknowledgement_is_forgotten_first
 //@   loop 1 vars added bool
 //@   loop 1 invariant inWF(q) && (spec_sameref(q.future, old(q.future)) || spec_fresh(q.future)) && (spec_sameref(q.in, old(q.in)) || spec_fresh(q.in))
 //@   loop 1 invariant len(q.in) >= old(len(q.in)) + len(old(val.Data))
